@@ -50,7 +50,7 @@ def variants(op, sizes):
     elif op == "inverse":
         out = [("inverse", f, "-", [nx, ny], None) for f in FAM4]
     elif op == "abduce_with":
-        out = [("abduce_with", f, st, [nx, ny], None) for f in FAM4 for st in ("spx", "ref")]
+        out = [("abduce_with", f, st, [nx, ny], None) for f in FAM4 for st in ("spx", "ref", "own")]
     elif op == "abduce":
         out = [("abduce", f, st, [nx, ny], None) for f in FAM4 for st in ("spx", "ref", "own")]
     elif op == "prod2":
